@@ -42,13 +42,13 @@ def variants(tier):
 def main(tier, replay=None):
     vs = variants(tier)
     targets = [(v, m) for v in vs for m in ("jit", "vmapBatch")]
-    plan = mp.shares(targets, n_sim=120 if tier == "quick" else 1000)
+    plan = mp.shares(targets, n_sim=120 if tier == "quick" else 2500)
 
     def single(behs, rng, n=(1 if tier == "quick" else 6)):
         full = [b for b in behs["ex"] if [o["a"] for o in b][-3:] == ["Update", "ReUpdate", "Commit"]]
         return rng.sample(full, min(n, len(full)))
     plan += [(v, "single", single) for v in (vs[:1] if tier == "quick" else vs[:6])]
-    return mp.run_check(PID, tier, replay, plan, ["plastic"], {"plastic": 200 if tier == "quick" else 1500},
+    return mp.run_check(PID, tier, replay, plan, ["plastic"], {"plastic": 200 if tier == "quick" else 4000},
                         rule="load histories = every action sequence of MaterialPointGen_plastic_<tier>.cfg (each to one "
                              "model variant x exec mode, round robin) + seeded TLC random walks per variant x mode; "
                              "moduli, hardening constants, increments, rotations, time steps drawn per seed; distinct = "
